@@ -29,6 +29,11 @@ var redirects = map[string]string{
 	"bytes.Index":                          "M_bytes_Index",
 	"strings.LastIndex":                    "M_strings_LastIndex",
 	"strings.Count":                        "M_strings_Count",
+	"os.ReadFile":                          "M_os_ReadFile",
+	"os.WriteFile":                         "M_os_WriteFile",
+	"os.Remove":                            "M_os_Remove",
+	"os.IsNotExist":                        "M_os_IsNotExist",
+	"os.IsPermission":                      "M_os_IsPermission",
 }
 
 // which intrinsics may run inside merged regions
@@ -134,6 +139,10 @@ func init() {
 				w.fail("config string %q missing", name)
 			}
 			return w.strConst(v)
+		},
+		zz + "scratchPath": func(w *Worker, _ *ssa.Function, args []Value, _ ssa.CallInstruction) Value {
+			tag, _ := concreteStr(args[0].(StrV))
+			return w.strConst("/zzv/" + tag)
 		},
 		zz + "Symbolic": func(w *Worker, _ *ssa.Function, args []Value, _ ssa.CallInstruction) Value {
 			return w.B.Bool(true)
